@@ -134,6 +134,10 @@ pub struct FaultPlan {
     pub open_latency_ms: u64,
     #[serde(default)]
     pub read_latency_ms: u64,
+    /// the reader re-enters the rewriter at its first open (a nested rewrite of another file on
+    /// another instance runs to completion); benign - must not change the outer result
+    #[serde(default)]
+    pub reenter: bool,
 }
 
 impl FaultPlan {
